@@ -62,6 +62,13 @@ FASTOR_INLINE Tensor<T,range_detector<F0,L0,S0>::value,range_detector<F1,L1,S1>:
     return out;
 }
 
+// on a non-const tensor the variadic seq overload below would otherwise be preferred to the const overload above
+template<size_t F0, size_t L0, size_t S0, size_t F1, size_t L1, size_t S1, size_t F2, size_t L2, size_t S2>
+FASTOR_INLINE Tensor<T,range_detector<F0,L0,S0>::value,range_detector<F1,L1,S1>::value,range_detector<F2,L2,S2>::value>
+        operator()(iseq<F0,L0,S0> s0, iseq<F1,L1,S1> s1, iseq<F2,L2,S2> s2) {
+    return static_cast<const Tensor<T,Rest...>&>(*this)(s0,s1,s2);
+}
+
 template<size_t F0, size_t L0, size_t S0,
          size_t F1, size_t L1, size_t S1,
          size_t F2, size_t L2, size_t S2,
@@ -343,6 +350,18 @@ FASTOR_INLINE TensorConstViewExpr<Tensor<T,Rest...>,1> operator()(seq _s) const 
 }
 
 FASTOR_INLINE TensorConstViewExpr<Tensor<T,Rest...>,2> operator()(seq _s0, seq _s1) const {
+    static_assert(dimension_t::value==2,"INDEXING TENSOR WITH INCORRECT NUMBER OF ARGUMENTS");
+    return TensorConstViewExpr<Tensor<T,Rest...>,2>(*this,_s0,_s1);
+}
+template<int F0, int L0, int S0>
+FASTOR_INLINE TensorConstViewExpr<Tensor<T,Rest...>,2>
+operator()(fseq<F0,L0,S0> _s0, seq _s1) const {
+    static_assert(dimension_t::value==2,"INDEXING TENSOR WITH INCORRECT NUMBER OF ARGUMENTS");
+    return TensorConstViewExpr<Tensor<T,Rest...>,2>(*this,_s0,_s1);
+}
+template<int F0, int L0, int S0>
+FASTOR_INLINE TensorConstViewExpr<Tensor<T,Rest...>,2>
+operator()(seq _s0, fseq<F0,L0,S0> _s1) const {
     static_assert(dimension_t::value==2,"INDEXING TENSOR WITH INCORRECT NUMBER OF ARGUMENTS");
     return TensorConstViewExpr<Tensor<T,Rest...>,2>(*this,_s0,_s1);
 }
